@@ -7,6 +7,7 @@ import (
 	"context"
 	"encoding/json"
 	"fmt"
+	"sort"
 
 	"golang.org/x/mod/semver"
 
@@ -162,8 +163,14 @@ func resourceReservationServiceAccount(
 		}
 	}
 
-	sa.ImagePullSecrets = make([]v1.LocalObjectReference, 0, len(imagePullSecrets))
+	secretNames := make([]string, 0, len(imagePullSecrets))
 	for secretName := range imagePullSecrets {
+		secretNames = append(secretNames, secretName)
+	}
+	sort.Strings(secretNames)
+	// nil when there are none, as the stored object reads back: an empty list would differ from it on every reconcile
+	sa.ImagePullSecrets = nil
+	for _, secretName := range secretNames {
 		sa.ImagePullSecrets = append(sa.ImagePullSecrets, v1.LocalObjectReference{Name: secretName})
 	}
 
